@@ -1178,7 +1178,14 @@ class Interp(object):
                         if ok is not True:
                             raise Undecided("sub-slice end %s is not covered by the bounds test" % hi)
                 else:
-                    raise Undecided("open-ended sub-slice of the buffer")
+                    # data[n..] of the open input: fine exactly when n <= LEN is known on this path
+                    cnd_ = self.compare("Ge", Sym(1), lo)
+                    if isinstance(cnd_, UBool):
+                        cnd_ = self.decide(st, cnd_)
+                    if cnd_ is None:
+                        raise Undecided("open-ended sub-slice data[%s..] is not covered by a length test on this path" % (lo,))
+                    if not cnd_:
+                        raise Panic("slice start %s beyond the end of the input" % (lo,))
                 return Ref(("slice", lo, hi))
             if lin_parts(rg) is not None:
                 return Ref(self.index_loc(st, base.loc, rg))
@@ -1222,6 +1229,8 @@ class Interp(object):
                 return args[0]
             r_ = self.exec_closure(st, args[1], [args[0].fields[0]])
             return Adt("core::option::Option", 1, "Some", [r_]) if c.endswith("::map") else r_
+        if c == "core::array::<impl [T; N]>::map" and len(args) == 2 and isinstance(args[0], list) and isinstance(args[1], Closure):
+            return [self.exec_closure(st, args[1], [x]) for x in args[0]]
         if c in ("core::ops::FnOnce::call_once", "core::ops::FnMut::call_mut", "core::ops::Fn::call") and len(args) == 2:
             # a closure value applied to its argument tuple (what the normalising pass leaves of `opt.map_or(d, |x| ..)` when the body is too large to inline)
             clo = args[0]
